@@ -83,7 +83,7 @@ SPEC = r'''
 
 
 def build(x):
-    run = x.stmts(F, 'CsvSource', 'setup', r'// Calculate start and end offset of this replica', r'// Rewind BufReader to the start', trait='Operator')
+    run = x.stmts(F, 'CsvSource', 'setup', r'let body_size(?:\s*:\s*u64)? = ', r'buf_reader\s*\.seek\(SeekFrom::Start\(start\)\)\s*\.expect\("Error while rewinding', trait='Operator')
     run.sub('V-SUBST', r'\.expect\("[^"]*"\)', '.unwrap()', detail='.expect(msg) -> .unwrap()')
     run.text = ("fn csv_range(buf_reader: &mut BufReader, file_size: u64, header_size: u64, instances: usize, global_id: CoordUInt, last_byte_terminator: u8) -> (r: (u64, u64))\n"
                 + SPEC + "{\n        let ghost c = buf_reader.content(); let ghost t = last_byte_terminator;\n"
